@@ -1546,9 +1546,12 @@ impl TransportHandle {
     pub async fn verif_register_incoming(&self, peer_id: &str, remote: SocketAddr) {
         let peer_id = peer_id.to_string();
         let remote_addr = NetworkAddress::from(remote);
-        broadcast_event(&self.event_tx, P2PEvent::PeerConnected(peer_id.clone()));
         register_new_peer(&self.peers, &peer_id, &remote_addr).await;
-        self.active_connections.write().await.insert(peer_id);
+        self.active_connections
+            .write()
+            .await
+            .insert(peer_id.clone());
+        broadcast_event(&self.event_tx, P2PEvent::PeerConnected(peer_id));
     }
 
     /// What the connection monitor does when a connection is lost.
